@@ -712,47 +712,7 @@ fn run_sqrt(a: &Args) {
 // delegation of the *_nostd streams to the crate /verif/harness_nostd
 
 #[cfg(not(feature = "nostd"))]
-fn delegate() -> ! {
-    use std::path::{Path, PathBuf};
-    use std::process::Command;
-    let manifest = Path::new(env!("CARGO_MANIFEST_DIR")).to_path_buf();   // /verif/harness or /verif/.build/alt/<tag>/harness
-    let local = manifest.parent().unwrap().join("harness_nostd");
-    let fail = |msg: String| -> ! { eprintln!("c11: cannot run the no_std harness: {}", msg); std::process::exit(3) };
-    if !local.join("Cargo.toml").exists() {
-        // mutation mode (VERIF_REPO): private copy next to the private harness copy, path deps re-pointed like check does
-        let mut root: Option<PathBuf> = None;
-        let mut p = manifest.clone();
-        while let Some(q) = p.parent().map(|x| x.to_path_buf()) {
-            if q.join("harness_nostd").join("Cargo.toml").exists() { root = Some(q); break; }
-            p = q;
-        }
-        let root = root.unwrap_or_else(|| fail("harness_nostd not found".into()));
-        let main_toml = std::fs::read_to_string(manifest.join("Cargo.toml")).unwrap_or_default();
-        let repo = main_toml.lines().find(|l| l.starts_with("dasp_sample")).and_then(|l| l.split('"').nth(1)).map(|s| s.trim_end_matches("/dasp_sample").to_string())
-            .unwrap_or_else(|| fail("dasp_sample path not found in the harness Cargo.toml".into()));
-        std::fs::create_dir_all(local.join(".cargo")).unwrap_or_else(|e| fail(e.to_string()));
-        let src = root.join("harness_nostd");
-        let toml = std::fs::read_to_string(src.join("Cargo.toml")).unwrap().replace("\"/repo/", &format!("\"{}/", repo));
-        std::fs::write(local.join("Cargo.toml"), toml).unwrap();
-        let _ = std::fs::copy(src.join("Cargo.lock"), local.join("Cargo.lock"));
-        let target = manifest.parent().unwrap().join("cargo-nostd");
-        let cfg = std::fs::read_to_string(src.join(".cargo/config.toml")).unwrap().replace("/verif/.build/cargo-nostd", target.to_str().unwrap());
-        std::fs::write(local.join(".cargo/config.toml"), cfg).unwrap();
-    }
-    // the target directory is passed explicitly so that a copy of /verif living elsewhere builds into ITS OWN .build
-    let target: String = if local.parent().map_or(false, |r| r.join("check").exists()) {
-        local.parent().unwrap().join(".build").join("cargo-nostd").to_string_lossy().into_owned()
-    } else {
-        let cfg = std::fs::read_to_string(local.join(".cargo/config.toml")).unwrap_or_default();
-        cfg.lines().find(|l| l.trim_start().starts_with("target-dir")).and_then(|l| l.split('"').nth(1)).unwrap_or("target").to_string()
-    };
-    let out = Command::new("cargo").args(["build", "--offline", "--release", "--bin", "c11_nostd"]).current_dir(&local).env("CARGO_NET_OFFLINE", "true").env("CARGO_TARGET_DIR", &target).output()
-        .unwrap_or_else(|e| fail(e.to_string()));
-    if !out.status.success() { fail(format!("cargo build failed:\n{}", String::from_utf8_lossy(&out.stderr))); }
-    let bin = Path::new(&target).join("release").join("c11_nostd");
-    let status = Command::new(&bin).args(std::env::args().skip(1)).status().unwrap_or_else(|e| fail(format!("{}: {}", bin.display(), e)));
-    std::process::exit(status.code().unwrap_or(3));
-}
+fn delegate() -> ! { delegate_nostd("c11_nostd") }
 #[cfg(feature = "nostd")]
 fn delegate() -> ! { unreachable!() }
 
